@@ -111,6 +111,7 @@ def gen_harness(layout, tcls, acls, bcls):
     body.append("  std::string content;")
     for e in text:
         body.append("  content.push_back((char)(%s));" % e)
+    body.append("  for (size_t i = content.size() + 1; i <= VF_STR_CAP; i++) content.d_[i] = 'a';   /* poisoned slack behind the NUL sentinel */")
 
     def arr(name, exps):
         return "  unsigned char %s[%d] = {%s};" % (name, max(len(exps), 1), ", ".join("(unsigned char)(%s)" % e for e in exps) or "0")
@@ -202,6 +203,16 @@ extern "C" void harness() {
   std::string err;
   bool ok = p.Parse(&content, &err);
   __CPROVER_assert(!ok && !err.empty(), "post C15: a dependency reappearing as a target that has its own dependencies is rejected");
+  {
+    /* same, with a further (new) target after the offending one in the second rule:  x: y \n y w: z \n */
+    std::string c2;
+    c2.push_back('x'); c2.push_back(':'); c2.push_back(' '); c2.push_back('y'); c2.push_back('\n');
+    c2.push_back('y'); c2.push_back(' '); c2.push_back('w'); c2.push_back(':'); c2.push_back(' '); c2.push_back('z'); c2.push_back('\n');
+    DepfileParser p2;
+    std::string err2;
+    bool ok2 = p2.Parse(&c2, &err2);
+    __CPROVER_assert(!ok2 && !err2.empty(), "post C15: ... also when another target follows it in the same rule");
+  }
   __CPROVER_assert(0, "canary: end of harness reachable");
 }
 '''
@@ -257,6 +268,10 @@ def cells(tier):
             if name_ok(w):
                 out.append((w, "P", ""))
                 out.append(("P", "P", w))
+    # fully concrete cells (no P): every name of 3 (quick) / 4 (thorough) escaped-class bytes; no symbolic byte, so each run is one path
+    for w in words("SHDBC", 3 if tier == "quick" else 4):
+        if name_ok(w) and "BD" not in w:
+            out.append(("K", w, ""))
     # classes that are known findings: one cell each, identified by the O / BD in the run name
     out.append(("P", "O", ""))
     out.append(("P", "PO", ""))
@@ -282,6 +297,8 @@ def jobs(tier, mutant=None):
                 t = "K"             # the target is written twice in layout 3: keep it constant there
             if is_known_class(t, a, b) and lay != 1:
                 continue
+            if t == "K" and not b and "P" not in a and lay not in (1, 2):
+                continue            # concrete cells: two layouts are enough
             key = (lay, t, a, b)
             if key in seen:
                 continue
